@@ -286,6 +286,12 @@ struct GuiState {
     earlier_games: Vec<(String, Vec<String>)>,
     quit_sent: bool,
     lookalike: Option<Pos>,
+    /// the game that starts now is a look-alike of the position searched last: no ucinewgame
+    lookalike_game: bool,
+    /// the next go is this one (ep twin games: the pair must be searched to comparable depth)
+    force_go: Option<String>,
+    /// the look-alike prepared by an ep game must be taken as the next game
+    lookalike_forced: bool,
 }
 
 pub fn generate_and_run(seed: u64) -> (Scenario, LoopReport) {
@@ -322,6 +328,9 @@ pub fn generate_and_run(seed: u64) -> (Scenario, LoopReport) {
         earlier_games: vec![],
         quit_sent: false,
         lookalike: None,
+        lookalike_game: false,
+        force_go: None,
+        lookalike_forced: false,
     }));
     let g2 = gs.clone();
     let next = Box::new(move |view: &GuiView| -> Option<String> {
@@ -362,7 +371,43 @@ pub fn generate_and_run(seed: u64) -> (Scenario, LoopReport) {
                     } else if g.explosive_game {
                         let p = if g.rng.chance(1, 2) { Pos::from_fen(*g.rng.pick(gen::EXPLOSIVE_FENS)).unwrap() } else { gen::promotion_race(&mut g.rng) };
                         (format!("fen {}", crate::sworld::fen_for_search(&p)), p)
-                    } else if g.lookalike.is_some() && g.rng.chance(1, 2) {
+                    } else if g.lookalike.is_none() && g.rng.chance(1, 12) {
+                        // a position in which an en-passant capture is legal (its look-alike
+                        // without the ep square follows as the next game, on the same tables)
+                        match gen::ep_capture_position(&mut g.rng) {
+                            Some(p) => {
+                                // one go to depth 3 here, then the same placement without the
+                                // ep square as the next game, without ucinewgame
+                                // ... or with the ep square on another file, where the pawns allow it
+                                let mut q = p.clone();
+                                q.ep = None;
+                                let r = if p.white_to_move { 5 } else { 2 };
+                                let mut others = vec![];
+                                for f in 0..8 {
+                                    let mut o = p.clone();
+                                    o.ep = Some(sq(f, r));
+                                    if o.ep != p.ep && o.is_valid() && !o.legal_moves().is_empty() {
+                                        others.push(o);
+                                    }
+                                }
+                                if !others.is_empty() && g.rng.chance(3, 4) {
+                                    q = g.rng.pick(&others).clone();
+                                }
+                                if q.is_valid() && !q.legal_moves().is_empty() {
+                                    g.lookalike = Some(q);
+                                    g.lookalike_forced = true;
+                                    g.force_go = Some("go depth 3".to_string());
+                                }
+                                (format!("fen {}", crate::sworld::fen_for_search(&p)), p)
+                            }
+                            None => ("startpos".to_string(), Pos::startpos()),
+                        }
+                    } else if g.lookalike.is_some() && (g.lookalike_forced || g.rng.chance(2, 3)) {
+                        g.lookalike_game = true;
+                        if g.lookalike_forced {
+                            g.lookalike_forced = false;
+                            g.force_go = Some(format!("go depth {}", g.rng.range(1, 3)));
+                        }
                         // a look-alike of the position searched last: same placement and side,
                         // one other component changed (ep square / a castling right); a hash
                         // that misses the component hands this search the other one's move
@@ -407,10 +452,13 @@ pub fn generate_and_run(seed: u64) -> (Scenario, LoopReport) {
                             }
                         }
                     }
-                    g.plies_left = if g.explosive_game { g.rng.range(1, 6) } else { g.rng.range(1, 40) };
+                    g.plies_left = if g.lookalike_forced { 1 } else if g.explosive_game { g.rng.range(1, 6) } else { g.rng.range(1, 40) };
                     g.phase = 1;
-                    // about a third of the games omit ucinewgame
-                    if g.rng.chance(2, 3) {
+                    // about a third of the games omit ucinewgame; a look-alike game always does
+                    // (its point is what the tables hold from the game before)
+                    let la = g.lookalike_game;
+                    g.lookalike_game = false;
+                    if !la && g.rng.chance(2, 3) {
                         return Some("ucinewgame".into());
                     }
                 }
@@ -429,8 +477,13 @@ pub fn generate_and_run(seed: u64) -> (Scenario, LoopReport) {
                 }
                 2 => {
                     g.phase = 3;
-                    if let Some(l) = lookalike_of(&mut g.rng, &g.pos) {
-                        g.lookalike = Some(l);
+                    if !g.lookalike_forced {
+                        if let Some(l) = lookalike_of(&mut g.rng, &g.pos) {
+                            g.lookalike = Some(l);
+                        }
+                    }
+                    if let Some(fg) = g.force_go.take() {
+                        return Some(fg);
                     }
                     if g.rng.chance(1, 15) {
                         g.phase = 2;
